@@ -21,7 +21,7 @@ RULE = ('Evaluation = one run() + three metar_msg() calls on a frame that satisf
         'parameters); every case counts as non-trivial except the single-row ones.')
 ASSUMPTIONS = ['BLAS/OpenMP threads fixed to 1', 'settings that shatter > 150 hits into hundreds of slices are not '
                'generated: the grouping step is quadratic in the number of slices (slow, not divergent)']
-REQUIRED = ['extra_object_columns', 'extreme_parameters', 'fam:generic', 'fam:degenerate', 'fam:bimodal', 'fam:chain', 'fam:empty_after_crop', 'scaling:minmax-scale',
+REQUIRED = ['fam:gmm_direct', 'extra_object_columns', 'extreme_parameters', 'fam:generic', 'fam:degenerate', 'fam:bimodal', 'fam:chain', 'fam:empty_after_crop', 'scaling:minmax-scale',
             'scaling:shift-and-scale', 'scaling:step-scale', 'anomalies', 'refusal:missing_column',
             'refusal:duplicates', 'refusal:type0_coincident', 'refusal:vv_coincident', 'refusal:empty',
             'refusal:not_a_frame', 'refusal:call_order', 'refusal:min_sep_lengths'] + \
@@ -52,6 +52,8 @@ def plan(tier, seed):
         out.append({'fam': 'degenerate', 's': seed, 'p': NUM, 'i': 200000 + i, 'k': {'kind': kind, 'rich': True}})
     for i in range(6 if tier == 'quick' else 60):
         out.append({'fam': 'empty_after_crop', 's': seed, 'p': NUM, 'i': 300000 + i})
+    for i in range(12 if tier == 'quick' else 200):        # 500 direct calls of the layering helper each
+        out.append({'fam': 'gmm_direct', 's': seed, 'p': NUM, 'i': 500000 + i, 'n': 500})
     for i in range(len(REFUSALS) * (3 if tier == 'quick' else 40)):
         out.append({'fam': 'refusal', 'kind': REFUSALS[i % len(REFUSALS)], 's': seed, 'p': NUM, 'i': 400000 + i})
     return out
@@ -136,11 +138,45 @@ def check_refusal(desc):
             'sample': {'workload': 'refusal', 'kind': kind} if desc['i'] % 8 == 0 else None}
 
 
+def check_gmm_direct(desc):
+    """The layering helper called directly on the heights of one thin, coarsely resolved layer (what
+    find_layers hands over for such a group), with the default and a few other selection settings."""
+    from ampycloud import layer
+    viol = []
+    n = 0
+    nt = []
+    with warnings.catch_warnings():
+        warnings.simplefilter('ignore')
+        for j in range(desc['n']):
+            rng = scenes.rng_for(desc['s'], NUM, desc['i'], j)
+            vals = scenes.quantised_heights(rng)
+            if len(np.unique(vals)) < 2:
+                continue
+            kw = dict(scores=str(rng.choice(['BIC', 'BIC', 'AIC'])), mode='delta', min_prob=1.0,
+                      delta_mul_gain=float(rng.choice([0.95, 1.0])), rescale_0_to_x=100.0)
+            ncmax = int(min(len(np.unique(vals)), 3))
+            n += 1
+            try:
+                nc, ids, _ = layer.ncomp_from_gmm(vals.reshape(-1, 1).copy(), ncomp_max=ncmax, min_sep=float(rng.choice([0, 50, 250])),
+                                                  layer_base_params={'lookback_perc': 100, 'height_perc': 5}, **kw)
+                if len(np.unique(ids)) != nc or len(ids) != len(vals):
+                    oracles.V(viol, 'C08', 'layering helper returns a component count that does not match its labels',
+                              ncomp=int(nc), labels=len(np.unique(ids)), vals=vals.tolist()[:40], kwargs=kw)
+            except Exception as e:      # noqa
+                oracles.V(viol, 'C08', 'exception on valid input', exc=type(e).__name__, msg=str(e)[:160], where='ncomp_from_gmm (direct call)',
+                          empties_chunk=False, vals=vals.tolist()[:60], kwargs=kw)
+            nt.append(obs.case_hash(vals.tolist(), kw))
+    return {'evals': n, 'nontrivial': nt, 'tags': ['fam:gmm_direct'], 'viol': viol[:5], 'counters': {'gmm_direct_calls': n},
+            'sample': {'workload': 'direct ncomp_from_gmm on quantised heights', 'vals': vals.tolist()[:12]} if desc['i'] % 6 == 0 else None}
+
+
 def check(desc):
     from ampycloud.errors import AmpycloudError
     from ampycloud.data import CeiloChunk
     if desc['fam'] == 'refusal':
         return check_refusal(desc)
+    if desc['fam'] == 'gmm_direct':
+        return check_gmm_direct(desc)
     case = empty_after_crop_case(desc) if desc['fam'] == 'empty_after_crop' else pipeline.materialise(desc)
     t0 = time.process_time()
     run = pipeline.execute(case, contracts=False)
